@@ -5,7 +5,7 @@
 EXTENDS AstConfigs, JaqalExec
 
 XTree == ExecTree(Prog, <<>>)
-EmitX == Complete => PrintT(<<"PROG", ToJson([Prog EXCEPT !.natives = IF @ = <<>> THEN <<>> ELSE <<"exact">>]),
+EmitX == Complete => PrintT(<<"PROG", ToJson([Prog EXCEPT !.natives = NatTag(@)]),
                               Len(VisitsOf(XTree).visits), DiscoverRule(XTree).accept,
                               LET t == RegTab(Prog, Env(Prog, <<>>)) IN
                               Len(t[CHOOSE r \in FundNames(Prog) : TRUE].elems)>>)
@@ -30,8 +30,8 @@ RefExpandSub(p) == [p EXCEPT !.body = RefExpandSubSeq(p.body),
                              !.macros = [j \in DOMAIN p.macros |-> [p.macros[j] EXCEPT !.body = RefExpandSubStmt(@)]]]
 \* spec-level theorem: the explicit spelling has the same execution tree
 ExplicitSameTree == Complete => ExecTree(RefExpandSub(Prog), <<>>) = XTree
-EmitExplicit == Complete => PrintT(<<"XPROG", ToJson([Prog EXCEPT !.natives = IF @ = <<>> THEN <<>> ELSE <<"exact">>]),
-                                     ToJson([RefExpandSub(Prog) EXCEPT !.natives = IF @ = <<>> THEN <<>> ELSE <<"exact">>])>>)
+EmitExplicit == Complete => PrintT(<<"XPROG", ToJson([Prog EXCEPT !.natives = NatTag(@)]),
+                                     ToJson([RefExpandSub(Prog) EXCEPT !.natives = NatTag(@)])>>)
 
 \* every unrolled pair of an accepted program that contains no loop around a section boundary is a flat
 \* pair; the number of visits of subcircuit k is the number of times its pair occurs unrolled
